@@ -491,6 +491,27 @@ def _known_bool(fn, l, pm, fm, depth=0):
     return None
 
 
+def _known_variant(fn, l, pm, live=None, depth=0):
+    """variant index of a local holding a field-less enum value that the context fixes: a parameter bound to ('v', idx),
+    or a local whose only definition (only definition in the live blocks, if given) builds a field-less variant"""
+    if depth > 8:
+        return None
+    if 1 <= l <= fn.argc and not fn.defs.get(l):
+        v = pm.get(l)
+        return v[1] if isinstance(v, tuple) and v[0] == "v" else None
+    ds = fn.defs.get(l, [])
+    if live is not None:
+        ds = [d for d in ds if d[1] in live]
+    if len(ds) != 1 or ds[0][0] != "stmt":
+        return None
+    rv = ds[0][3]["rv"]
+    if rv["k"] == "agg" and rv.get("ak") == "adt" and not rv["f"] and "vidx" in rv:
+        return int(rv["vidx"])
+    if rv["k"] == "use" and op_local(rv["op"]) is not None:
+        return _known_variant(fn, op_local(rv["op"]), pm, live, depth + 1)
+    return None
+
+
 def live_blocks(fn, pm, fm):
     """blocks reachable from entry when switches on known bools are pruned"""
     seen = {0}
@@ -508,6 +529,17 @@ def live_blocks(fn, pm, fm):
                     if int(val) == int(v):
                         tgt = tg
                 succ = [tgt if tgt is not None else t["otherwise"]]
+        elif t["k"] == "switch" and op_local(t["discr"]) is not None:
+            # match on a field-less enum flag whose variant the context fixes
+            d = fn.single_def(op_local(t["discr"]))
+            if d and d[0] == "stmt" and d[3]["rv"]["k"] == "discr" and not d[3]["rv"]["p"][1]:
+                v = _known_variant(fn, d[3]["rv"]["p"][0], pm)
+                if v is not None:
+                    tgt = None
+                    for val, tg in t["targets"]:
+                        if int(val) == v:
+                            tgt = tg
+                    succ = [tgt if tgt is not None else t["otherwise"]]
         for s in succ:
             if s not in seen:
                 seen.add(s)
@@ -560,14 +592,7 @@ def specialised_reach(prog, entries, stop=()):
                     targets.append(t["callee"])
             else:
                 callback = True
-                for a in t.get("arg_adts", []):
-                    if a in prog.fns:
-                        targets.append(a)
-                        continue
-                    for im in prog.adt_impls.get(a, []):
-                        if im["trait"] in prog.traits:
-                            continue
-                        targets.extend(im["methods"].values())
+                targets.extend(prog.callback_targets(t))
             for tg in targets:
                 cf = prog.fns.get(tg)
                 if cf is None:
@@ -587,6 +612,10 @@ def specialised_reach(prog, entries, stop=()):
                             v = _known_bool(fn, l, pm, fm)
                             if v is not None:
                                 cpm[i + 1] = v
+                        else:
+                            v = _known_variant(fn, l, pm, live)
+                            if v is not None:
+                                cpm[i + 1] = ("v", v)
                     # self passed through unchanged keeps the field knowledge
                     if t["args"]:
                         l0 = op_local(t["args"][0])
